@@ -28,7 +28,7 @@ type C17Plan struct {
 	Idx       int           `json:"idx"`
 	Instances []C17Instance `json:"instances"`
 	Schedule  []int         `json:"schedule,omitempty"` // interleaving choices; exhausted: PRNG(run_seed)
-	Only      string        `json:"only,omitempty"`     // restrict to one sub-check: interleave|isolation|order|case|recent
+	Only      string        `json:"only,omitempty"`     // restrict to one sub-check: interleave|isolation|order|case|reuse|recent
 }
 
 // ---- the small executable model of switch-like options ----
@@ -484,6 +484,9 @@ func probesFor(r *RNG, all []Op, fresh string) [][]byte {
 					if o.Re != "" {
 						vals = valsOf(o.Re)
 					}
+					if o.Re2 != "" {
+						vals = append(append([]string{}, vals...), valsOf(o.Re2)...)
+					}
 					if a == "href" || a == "src" || a == "cite" {
 						vals = []string{"http://example.com/", "/rel", "javascript:alert(1)"}
 					}
@@ -891,7 +894,34 @@ func runC17(planJSON []byte) (*RunResult, error) {
 						i, where, got, exp, opsString(mut)), got, exp)
 			}
 		}
-		// 5. most recent setting
+		// 5. a builder value used for two scope calls stands for two independent chains
+		if want("reuse") {
+			var split []Op
+			n := 0
+			for _, o := range in.Ops {
+				if two := o.SplitReuse(); two != nil {
+					split = append(split, two...)
+					n++
+				} else {
+					split = append(split, o)
+				}
+			}
+			if n > 0 {
+				fp := fingerprint(buildSeq(in.Base, split), probes)
+				res.Evals += int64(len(probes))
+				res.count("check.reuse", 1)
+				res.count("builders_reused", int64(n))
+				res.Nontrivial++
+				fmt.Fprintf(dig, "reuse%d %s\n", i, digestBytes([]byte(strings.Join(fp, "\x00"))))
+				if firstDiff(fp, refFP[i]) >= 0 {
+					where, got, exp := describe(i, fp, refFP[i])
+					viol("reuse", "C17/builder-reuse-differs", "reuse",
+						fmt.Sprintf("instance %d: using one builder value for two scope calls (with its matcher changed in between) behaves differently from making the two chains with fresh builders: %s gives %q with fresh builders, %q with the reused one. history: %s",
+							i, where, got, exp, opsString(in.Ops)), got, exp)
+				}
+			}
+		}
+		// 6. most recent setting
 		if want("recent") {
 			red, dropped := reduceHistory(in.Base, in.Ops)
 			if dropped > 0 {
